@@ -69,6 +69,7 @@ func dumpFn(fn *ir.Function) (s string) {
 	}()
 	var buf bytes.Buffer
 	ir.WriteFunction(&buf, fn)
+	fmt.Fprintf(&buf, "# params: %d free: %d anon: %d\n", len(fn.Params), len(fn.FreeVars), len(fn.AnonFuncs))
 	return canon(buf.String())
 }
 
